@@ -118,9 +118,10 @@ static int run_buffer(uint64_t seed, long nexec) {
         op.kind = 3;
         op.nbits = active ? std::min(room, r.range(0, 32)) : r.range(1, 32);
         op.v = op.nbits == 0 ? 0 : (r.coin(1, 4) ? 0xFFFFFFFFu : r.u32());
+        const uint32_t word = (uint32_t)op.v;       // every second value is handed over with its upper bits left in place
         if (op.nbits < 32) op.v &= ((1ull << op.nbits) - 1);
         if (active && op.nbits == 0 && room > 0) { --i; continue; }
-        op.ok = eb.EncodeLeastSignificantBits32(op.nbits, (uint32_t)op.v);
+        op.ok = eb.EncodeLeastSignificantBits32(op.nbits, (i % 2) ? word : (uint32_t)op.v);
         if (op.ok) room -= op.nbits;
         out.begin("WPut").i("k", op.nbits).w32("v", (uint32_t)op.v).b("ok", op.ok).end();
       } else {  // end
@@ -221,7 +222,7 @@ static int run_varint(uint64_t seed, long nrandom) {
 }
 
 // ------------------------------------------------------------------------------------------ coders (class level)
-struct BitOp { int k; uint32_t v; };
+struct BitOp { int k; uint32_t v; uint32_t dirt = 0; };   // dirt: bits above the k coded ones in the word handed to the encoder ("least significant bits": they must not matter)
 // reuse: the case runs on ONE encoder and ONE decoder object per coder class that have coded every earlier reuse case (StartEncoding / StartDecoding
 // begin a new sequence; nothing of the previous one may survive)
 template <class Enc, class Dec>
@@ -234,7 +235,7 @@ static void coder_case(const char *name, const std::vector<BitOp> &ops, bool log
   enc.StartEncoding();
   for (auto &o : ops) {
     if (o.k == 0) enc.EncodeBit(o.v & 1);
-    else enc.EncodeLeastSignificantBits32(o.k, o.v);
+    else enc.EncodeLeastSignificantBits32(o.k, o.v | o.dirt);
   }
   enc.EndEncoding(&eb);
   const size_t block = eb.size();
@@ -287,6 +288,8 @@ static int run_coders(uint64_t seed, long ncases) {
       if (r.coin(1, 16)) v = nb == 32 ? 0xFFFFFFFFu : ((1u << nb) - 1);
       if (coder == 4) v &= 0x7FFFFFFFu;      // symbol coder: every value becomes an entropy-coded symbol; values from 2^31 up are finding F6b (wide mode of drv_c17)
       o.v = v;
+      // a third of the multi-bit values arrive with arbitrary bits above the coded ones
+      if (o.k >= 1 && o.k < 32 && r.coin(1, 3)) { o.dirt = (r.u32() | 0x80000000u) & ~((1u << o.k) - 1); if (coder == 4) o.dirt &= 0x7FFFFFFFu; }
       total_bits += nb;
       ops.push_back(o);
     }
